@@ -95,8 +95,14 @@ def has_unquoted(src: str, ch: str) -> bool:
 
 # --------------------------------------------------------------------------- symbol references
 
+# "alphanumeric or `_`", spelled out for the characters the harness alphabets contain (str.isalnum on a
+# symbolic character drags the Unicode tables into every later solver query); the harness self-test checks
+# that this set and str.isalnum agree on every character of every alphabet used.
+NAME_CHARS = 'abcdefghijklmnopqrstuvwxyzABCDEFGHIJKLMNOPQRSTUVWXYZ0123456789_\xe9'
+
+
 def is_name_char(c: str) -> bool:
-    return c.isalnum() or c == '_'
+    return c in NAME_CHARS
 
 
 def split_refs(s: str):
